@@ -723,6 +723,9 @@ def main(argv) -> int:
         return worker_main()
     if len(argv) >= 2 and argv[1] == '_shrink':
         return shrink_main()
+    if len(argv) >= 2 and argv[1] == '_phase2':
+        from .props import phase2_main
+        return phase2_main()
     if len(argv) >= 2 and argv[1] == '_enumerate':
         return enumerate_main()
     if len(argv) >= 2 and argv[1] == '_replay':
